@@ -1,7 +1,7 @@
 SPECIFICATION HSpec
-CONSTANTS Units = {1,2}
-  Args = {1}
-  MigUnits = {}
+CONSTANTS Units = {1}
+  Args = {1,2}
+  MigUnits = {1}
 INVARIANTS OneStart Moved
 PROPERTY FreedIsFinal
 CHECK_DEADLOCK FALSE
